@@ -302,6 +302,7 @@ type Stream struct {
 	Ls      int         `json:"ls"`               // index into the label-set pool (when Labels is empty)
 	Labels  [][2]string `json:"labels,omitempty"` // explicit label set
 	Fp      string      `json:"fp"`               // fingerprintLabels of that set (hook)
+	San     [][2]string `json:"san,omitempty"`    // sanitizeLabels of that set (hook), hex
 	Entries []Entry `json:"entries"`
 }
 type Step struct {
@@ -497,6 +498,7 @@ func runHistCase(r *mux.Router, c *HCase) {
 			st := &c.Steps[i]
 			for j := range st.Streams {
 				st.Streams[j].Fp = strconv.FormatUint(fpOf(labelsOf(st.Streams[j])), 10)
+				st.Streams[j].San = hexPairs(unmarshal.VerifC04SanitizeLabels(copyLabels(labelsOf(st.Streams[j]))))
 			}
 			switch st.K {
 			case "reset":
